@@ -83,7 +83,7 @@ func (e *C10) one(ctx *core.Ctx) {
 		userTol = 1
 	}
 	affMode := r.Intn(2) == 0
-	affKind := r.Intn(6)
+	affKind := r.Intn(7)
 	switch affKind {
 	case 1:
 		tplt.Spec.Affinity = &corev1.Affinity{}
@@ -102,6 +102,11 @@ func (e *C10) one(ctx *core.Ctx) {
 		}}}}
 	case 5:
 		tplt.Spec.Affinity = &corev1.Affinity{PodAntiAffinity: &corev1.PodAntiAffinity{}}
+	case 6:
+		// a single term that excludes a node by name (a NotIn on metadata.name is not a pin)
+		tplt.Spec.Affinity = &corev1.Affinity{NodeAffinity: &corev1.NodeAffinity{RequiredDuringSchedulingIgnoredDuringExecution: &corev1.NodeSelector{NodeSelectorTerms: []corev1.NodeSelectorTerm{
+			{MatchFields: []corev1.NodeSelectorRequirement{{Key: "metadata.name", Operator: corev1.NodeSelectorOpNotIn, Values: []string{"node-x"}}}},
+		}}}}
 	}
 	rs := &v1.ExtendedDaemonSetReplicaSet{ObjectMeta: metav1.ObjectMeta{Name: "rs-1", Namespace: "ns", UID: "u-rs", Labels: map[string]string{v1.ExtendedDaemonSetNameLabelKey: "eds"}}}
 	rs.Spec.Template = tplt
@@ -232,6 +237,11 @@ func (e *C10) one(ctx *core.Ctx) {
 	}
 	if kit.NodeOfPod(pod) != "n1" {
 		fail("C10.pinned", fmt.Sprintf("nodeOf=%q affinity=%s", kit.NodeOfPod(pod), core.JSON(pod.Spec.Affinity)))
+	}
+	// the controller's own reading of which node a pod is for must give the node it was created for
+	// (otherwise the pod is cleaned up as sitting on an unknown node and re-created on every sync)
+	if got, err := podutils.GetNodeNameFromPod(pod); err != nil || got != "n1" {
+		fail("C10.read-back", fmt.Sprintf("GetNodeNameFromPod=%q err=%v affinity=%s", got, err, core.JSON(pod.Spec.Affinity)))
 	}
 	if affMode && pod.Spec.NodeName != "" {
 		fail("C10.pinned", "nodeName set in affinity mode")
